@@ -173,7 +173,7 @@ func dischargeAll(items []OblResult, dir string, timeoutS, seed, par int) {
 			defer wg.Done()
 			defer func() { <-sem }()
 			var txt string
-			if it.Obl.Cover || os.Getenv("GOVC_NOSLICE") != "" {
+			if it.Obl.Kind == "cover" || os.Getenv("GOVC_NOSLICE") != "" {
 				txt = it.VC.emit(it.Obl, false)
 			} else {
 				txt = it.VC.emitSliced(it.Obl, false)
